@@ -67,17 +67,26 @@ fn cmp(what: &str, sent: &[u8], got: &[u8]) -> Option<(String, String)> {
 }
 
 /// one association end to end; returns problems (symptom, detail) and datagrams compared
+static SENDER_SWITCHES: std::sync::atomic::AtomicU64 = std::sync::atomic::AtomicU64::new(0);
+
 async fn association(client: Arc<anytls_rs::client::Client>, target_ip: IpAddr, sizes_up: Vec<usize>, sizes_down: Vec<usize>, seed: u64) -> Result<(Vec<(String, String)>, u64), String> {
     let target = UdpSocket::bind(SocketAddr::new(target_ip, 0)).await.map_err(|e| format!("bind target {target_ip}: {e}"))?;
     let decoy = UdpSocket::bind(SocketAddr::new(target_ip, 0)).await.map_err(|e| e.to_string())?;
     let target_addr = target.local_addr().map_err(|e| e.to_string())?;
     let local = tokio::time::timeout(Duration::from_secs(40), client.create_udp_proxy("127.0.0.1:0", target_addr)).await.map_err(|_| "create_udp_proxy timed out".to_string())?.map_err(|e| format!("create_udp_proxy: {e}"))?;
     tokio::time::sleep(Duration::from_millis(60)).await;
-    let app = UdpSocket::bind("127.0.0.1:0").await.map_err(|e| e.to_string())?;
+    let mut app = UdpSocket::bind("127.0.0.1:0").await.map_err(|e| e.to_string())?;
+    // the application may re-open its socket (or a second local program may take over the association): about one
+    // exchange in six is sent from a fresh local socket; the answer belongs to the socket that sent last
+    let mut earlier_apps: Vec<UdpSocket> = Vec::new();
     let mut problems = Vec::new();
     let mut compared = 0u64;
     let n = sizes_up.len().max(sizes_down.len());
     for i in 0..n {
+        if i > 0 && sizes_up.get(i).is_some() && earlier_apps.len() < 6 && (seed.rotate_right((i % 61) as u32) ^ i as u64) % 6 == 0 {
+            let fresh = UdpSocket::bind("127.0.0.1:0").await.map_err(|e| e.to_string())?;
+            earlier_apps.push(std::mem::replace(&mut app, fresh));
+        }
         // application -> target
         let mut from_tunnel = None;
         if let Some(&len) = sizes_up.get(i) {
@@ -111,7 +120,17 @@ async fn association(client: Arc<anytls_rs::client::Client>, target_ip: IpAddr, 
                     }
                 }
                 None => {
-                    problems.push(("datagram_never_delivered".into(), format!("datagram #{i} target->application ({len} bytes) did not arrive at the application within 6 s")));
+                    let mut elsewhere = false;
+                    for (k, old) in earlier_apps.iter().enumerate() {
+                        if let Some((g, _)) = recv_one(old, Duration::from_millis(30)).await {
+                            elsewhere = true;
+                            problems.push(("datagram_sent_elsewhere".into(), format!("datagram #{i} target->application ({len} bytes) was delivered ({} bytes) to local socket #{k}, which had sent earlier on this association, instead of to the local socket that sent the latest datagram", g.len())));
+                            break;
+                        }
+                    }
+                    if !elsewhere {
+                        problems.push(("datagram_never_delivered".into(), format!("datagram #{i} target->application ({len} bytes) did not arrive at the application within 6 s")));
+                    }
                     break;
                 }
             }
@@ -125,10 +144,16 @@ async fn association(client: Arc<anytls_rs::client::Client>, target_ip: IpAddr, 
         if let Some((g, _)) = recv_one(&app, Duration::from_millis(20)).await {
             problems.push(("datagram_duplicated".into(), format!("an extra datagram of {} bytes arrived at the application", g.len())));
         }
+        for old in &earlier_apps {
+            if let Some((g, _)) = recv_one(old, Duration::from_millis(2)).await {
+                problems.push(("datagram_sent_elsewhere".into(), format!("a datagram of {} bytes arrived at a local socket that was no longer the association's latest sender", g.len())));
+            }
+        }
         if let Some((g, _)) = recv_one(&decoy, Duration::from_millis(5)).await {
             problems.push(("datagram_sent_elsewhere".into(), format!("a datagram of {} bytes arrived at another socket on the target host", g.len())));
         }
     }
+    SENDER_SWITCHES.fetch_add(earlier_apps.len() as u64, std::sync::atomic::Ordering::Relaxed);
     Ok((problems, compared))
 }
 
@@ -380,6 +405,7 @@ pub fn run(ctx: Ctx) -> Report {
                 }
             }
         }
+        rep.add("local_sender_socket_changes_within_associations", SENDER_SWITCHES.swap(0, std::sync::atomic::Ordering::Relaxed));
         // (1b) targets that go away for a moment and come back
         for i in 0..if quick { 6 } else { 60 } {
             let ip: IpAddr = if i % 2 == 0 { Ipv4Addr::new(127, 0, 0, 1).into() } else { Ipv6Addr::LOCALHOST.into() };
